@@ -13,6 +13,7 @@ kernels of checks/wrap_c04.py.  z3's nonlinear solver needs help, so every unit 
     compiled function); if none is found the goal is reported inconclusive (exit 2) - never as success.
 """
 
+import ast
 import itertools
 import time
 
@@ -67,12 +68,29 @@ def Q(s):
 class GInterp(core.Interp):
   """Interp whose wp.normalize is the contract described in the module docstring (records the calls)."""
 
-  def __init__(self, *a, abstract_dot=False, **k):
+  def __init__(self, *a, abstract_dot=False, abstract_matvec=False, **k):
     super().__init__(*a, **k)
+    self.abstract_matvec = abstract_matvec
+    self.matvecs = []  # (component expressions, names): names == expressions (definitions), in program order
     self.nctr = itertools.count()
     self.norms = []  # (x components, l, n components)
     self.abstract_dot = abstract_dot
     self.dots = []  # (x, y, name) : name == x . y  (definition)
+
+  def expr(self, fr, e):
+    v = super().expr(fr, e)
+    if self.abstract_matvec and isinstance(e, ast.BinOp) and isinstance(e.op, ast.MatMult) and isinstance(v, Vec) and len(v.shape) == 1 and any(is_sym(c) for c in v.c):
+      k = len(self.matvecs)
+      rhs = super().expr(fr, e.right)
+      if not hasattr(self, "matvec_args"):
+        self.matvec_args = []
+      self.matvec_args.append([R(cc) for cc in rhs.c] if isinstance(rhs, Vec) else None)
+      names = [z3.Real(f"mv!{k}_{i}") for i in range(len(v.c))]
+      exprs = [R(c) for c in v.c]
+      self.assumes += [nm == ex for nm, ex in zip(names, exprs)]
+      self.matvecs.append((exprs, names))
+      return Vec(names, v.shape, v.dt)
+    return v
 
   def builtin(self, fr, key, args, e):
     if key == "dot" and self.abstract_dot and any(is_sym(c) for c in list(args[0].c) + list(args[1].c)):
@@ -125,6 +143,14 @@ class Proof:
   def assume(self, *facts):
     self.bg += list(facts)
     self.full.add(*facts)
+
+  def name(self, label, expr):
+    """fresh name for an expression (definition): lets later steps treat a polynomial as one scalar"""
+    v = z3.Real(f"{self.prefix}{label}".replace("/", "_"))
+    d = v == expr
+    self.assume(d)
+    self.facts["def:" + label] = d
+    return v
 
   def _using(self, using):
     out = []
@@ -444,6 +470,7 @@ def validate_geometry(seed, n=40):
   bad = []
   ncap = [0]
   nreg = {}
+  nbox = {}
 
   def contacts(xml):
     m = mujoco.MjModel.from_xml_string(xml)
@@ -491,6 +518,41 @@ def validate_geometry(seed, n=40):
       cc = d.contact[0]
       if abs(cc.dist - wd) > 1e-6 or np.abs(cc.frame[:3] - wn).max() > 1e-5 or np.abs(cc.pos - wpos).max() > 1e-6:
         bad.append(f"mujoco sphere-cylinder ({reg}) contact dist {cc.dist} n {cc.frame[:3].tolist()} differs from the closed-form reference dist {wd} n {wn.tolist()}")
+    # sphere - box: closed-form reference (centre outside near faces / edges / corners, and inside)
+    for _k in range(3):
+      bsz = rng.uniform(0.05, 0.3, 3)
+      pc = rng.uniform(-0.4, 0.4, 3) * (0.4 if _k == 2 else 1.0)
+      m, d = contacts(f'<mujoco><worldbody><geom type="box" size="{bsz[0]} {bsz[1]} {bsz[2]}" quat="{rq()}" margin="2"/><body pos="{pc[0]} {pc[1]} {pc[2]}"><freejoint/><geom size="{r2}"/></body></worldbody></mujoco>')
+      reg, wd, wn, wpos = box_reference(d.geom_xpos[1], r2, d.geom_xpos[0], d.geom_xmat[0].reshape(3, 3), bsz)
+      nbox[reg] = 1
+      if d.ncon != 1:
+        bad.append(f"mujoco sphere-box: {d.ncon} contacts")
+        continue
+      cc = d.contact[0]
+      if abs(cc.dist - wd) > 1e-6 or np.abs(cc.frame[:3] - wn).max() > 1e-5 or np.abs(cc.pos - wpos).max() > 1e-6:
+        bad.append(f"mujoco sphere-box ({reg}) contact dist {cc.dist} n {cc.frame[:3].tolist()} differs from the closed-form reference dist {wd} n {wn.tolist()}")
+    # plane - ellipsoid: closed-form support point
+    es = rng.uniform(0.05, 0.3, 3)
+    m, d = contacts(f'<mujoco><worldbody><geom type="plane" size="5 5 .1" quat="{rq()}" margin="2"/><body pos="{p2[0]} {p2[1]} {p2[2]}" quat="{rq()}"><freejoint/><geom type="ellipsoid" size="{es[0]} {es[1]} {es[2]}"/></body></worldbody></mujoco>')
+    if d.ncon == 1:
+      wd, wpos = ellipsoid_reference(d.geom_xmat[0].reshape(3, 3)[:, 2], d.geom_xpos[0], d.geom_xpos[1], d.geom_xmat[1].reshape(3, 3), es)
+      cc = d.contact[0]
+      if abs(cc.dist - wd) > 1e-6 or np.abs(cc.pos - wpos).max() > 1e-6:
+        bad.append(f"mujoco plane-ellipsoid contact dist {cc.dist} pos {cc.pos.tolist()} differs from the closed-form reference {wd} {wpos.tolist()}")
+    else:
+      bad.append(f"mujoco plane-ellipsoid: {d.ncon} contacts")
+    # plane - cylinder (generic tilt, and standing upright on the tilted plane = the degenerate branch)
+    for upright in (False, True):
+      pq_ = rq()
+      cq_ = pq_ if upright else rq()
+      m0, d0 = contacts(f'<mujoco><worldbody><geom type="plane" size="5 5 .1" quat="{pq_}"/></worldbody></mujoco>')
+      nn_ = d0.geom_xmat[0].reshape(3, 3)[:, 2]
+      cc_ = nn_ * (hl * 0.9 if upright else 0.05) + (0 if upright else 1) * rng.uniform(-0.05, 0.05, 3)
+      m, d = contacts(f'<mujoco><worldbody><geom type="plane" size="5 5 .1" quat="{pq_}" margin="1"/><body pos="{cc_[0]} {cc_[1]} {cc_[2]}" quat="{cq_}"><freejoint/><geom type="cylinder" size="{r1} {hl}"/></body></worldbody></mujoco>')
+      if d.ncon:
+        bad += plane_cylinder_report(nn_, d.geom_xpos[0], d.geom_xpos[1], d.geom_xmat[1].reshape(3, 3)[:, 2], r1, hl, [float(x.dist) for x in d.contact], [np.array(x.pos) for x in d.contact], "mujoco plane-cylinder" + (" (upright)" if upright else ""))
+      else:
+        bad.append("mujoco plane-cylinder: no contact in the validation scene")
     # plane - box: every MuJoCo contact is one of the 8 corner candidates
     bs = rng.uniform(0.05, 0.3, 3)
     m, d = contacts(f'<mujoco><worldbody><geom type="plane" size="5 5 .1" quat="{rq()}" margin="1"/><body pos="{p2[0]} {p2[1]} {p2[2]}" quat="{rq()}"><freejoint/><geom type="box" size="{bs[0]} {bs[1]} {bs[2]}"/></body></worldbody></mujoco>')
@@ -525,6 +587,8 @@ def validate_geometry(seed, n=40):
       proj = ax - nrm * np.dot(nrm, ax)
       if np.linalg.norm(proj) > 1e-3 and np.abs(np.cross(c.frame[3:6], proj)).max() > 1e-5:
         bad.append("mujoco plane-capsule second frame axis is not along the projected capsule axis")
+  if n >= 40 and len(nbox) < 2:
+    bad.append(f"sphere-box validation only hit regimes {sorted(nbox)}")
   if n >= 40 and len(nreg) < 6:
     bad.append(f"sphere-cylinder validation only hit regimes {sorted(nreg)}")
   if n >= 20 and ncap[0] == 0:
@@ -1268,6 +1332,7 @@ def _unit_sphere_cylinder(ctx, group):
 
   A2 = ("2/7", "3/7", "6/7")
   pins = [pin(cv) for cv in [(3, 0, "1/2"), (0, 4, "-1/2"), ("1/4", 0, "1/8"), (0, "3/4", "-1/8"), ("1/4", 0, "7/8"), (0, "1/4", "-7/8"), ("1/2", 0, 3), (0, "-1/2", -3), (3, 4, 2), (3, 4, -2), (0, 5, -4), (4, 0, 13)]]
+  pins += [pin(cv, Rv="1/2", hv="3/2", rsv="1/4") for cv in [(3, 4, 2), (3, 4, -2), (0, 5, "-7/4"), (3, 0, "1/2"), (0, "1/4", "-5/4"), (0, "1/4", -3), ("3/10", "4/10", 1), (0, "1/8", "11/8")]]
   pins += [pin(cv, av=A2, Rv="1/2", hv="2", pv=(1, 0, -1)) for cv in [(3, 1, 0), (1, 0, -1), (2, 2, 3), (0, -2, -5), (-1, 3, -4), (3, 0, -7), ("8/7", "2/7", "-3/7")]]
   inside = z3.And(absx < h, rho < Rc)
   capnear = h - absx < Rc - rho
@@ -1367,6 +1432,460 @@ def _unit_sphere_cylinder(ctx, group):
       P.goal("pos/midway", veq(scl(pos, 2), add(scl(c, 2), scl(n, rs + L))), using=["out", "args", "p2=c+n*L", call["facts"][3]], desc="sphere_cylinder (rim): pos is not midway between the sphere surface and the rim point")
 
 
+# ------------------------------------------------------------------------------------------------ sphere_box
+
+
+def box_reference(c, rs, p, Rm, sz):
+  """closed-form reference: sphere vs box (centre p, rotation Rm, half sizes sz).  In box coordinates x = Rm^T (c - p):
+  outside: q = clip(x, -sz, sz) is the nearest box point, sd = |q - x|, n = (q - x)/sd; inside: the nearest face (first of
+  +/-x, +/-y, +/-z in the code's order -x,+x,-y,+y,-z,+z attaining the minimum) at distance m: sd = -m, n = inward normal
+  of that face seen from the sphere (= -(outward face normal)).  dist = sd - rs, pos = x + n (rs + dist/2); normal and pos
+  are rotated / translated back to the world frame.  -> (regime, dist, n_world, pos_world)"""
+  x = Rm.T @ (c - p)
+  q = np.clip(x, -sz, sz)
+  sd = float(np.linalg.norm(q - x))
+  if sd > 1e-15:
+    reg, n = "outside", (q - x) / sd
+  else:
+    fd = [abs((1.0 if i % 2 else -1.0) * sz[i // 2] - x[i // 2]) for i in range(6)]
+    k = int(np.argmin(fd))
+    reg, sd = "inside", -fd[k]
+    n = np.zeros(3)
+    n[k // 2] = -1.0 if k % 2 else 1.0
+  dist = sd - rs
+  return reg, dist, Rm @ n, p + Rm @ (x + n * (rs + 0.5 * dist))
+
+
+def goal_sphere_box(spec, pre, post):
+  c, rs = _f32(_argv(spec, "sphere_pos")), float(_f32(_argv(spec, "sphere_radius")))
+  p, Rm, sz = _f32(_argv(spec, "box_pos")), _f32(_argv(spec, "box_rot")).reshape(3, 3), _f32(_argv(spec, "box_size"))
+  reg, wd, wn, wpos = box_reference(c, rs, p, Rm, sz)
+  dist, pos, n = float(post["dist_out"][0]), post["pos_out"][0].astype(np.float64), post["normal_out"][0].astype(np.float64)
+  scale = 1 + np.abs(c - p).max() + abs(rs) + np.abs(sz).max()
+  msgs = []
+  if abs(dist - wd) > TOL * scale:
+    msgs.append(f"dist {dist} but the separation of sphere and box is {wd}")
+  if np.abs(n - wn).max() > TOL:
+    msgs.append(f"normal {n.tolist()} but the direction from the sphere to the nearest box point / face is {wn.tolist()}")
+  if np.abs(pos - wpos).max() > TOL * scale:
+    msgs.append(f"pos {pos.tolist()} but the midway point is {wpos.tolist()}")
+  return (not msgs), f"sphere_box ({reg}): " + ("; ".join(msgs) or "ok")
+
+
+def matvec(M, v):
+  return [sum(M[3 * r + k] * v[k] for k in range(3)) for r in range(3)]
+
+
+def matTvec(M, v):
+  return [sum(M[3 * k + r] * v[k] for k in range(3)) for r in range(3)]
+
+
+def unit_sphere_box(ctx):
+  from mujoco_warp._src import collision_primitive_core as cpc
+  from mujoco_warp._src import math as mjmath
+
+  ctx.encode(cpc.sphere_box)
+  ctx.bound(note="6 faces (concrete loop); all inputs symbolic; matrix-vector products are named (definitions) so that the proof works in box coordinates x = R^T (c - p); normalize_with_norm through its contract (unit geometry/normalize_with_norm)")
+  ctx.assume("box half sizes > 0; the box rotation is orthonormal (only used for the world-frame unit-normal statement)", "inside regime: the sphere centre is inside the box (the 1e-15 sliver outside the box that the code also treats as inside is outside the claim)", "floats are reals", "reference: closed form stated in geom_c20.box_reference")
+  calls = []
+
+  def summary(it, fr, args):
+    xv = [R(cc) for cc in args[0].c]
+    l = z3.Real(f"nwn_len!{len(calls)}")
+    nn = [z3.Real(f"nwn!{len(calls)}_{i}") for i in range(3)]
+    facts = nwn_contract(xv, nn, l)
+    it.assumes += facts
+    calls.append({"x": xv, "n": nn, "l": l, "facts": facts, "center": [R(cc) for cc in fr.env["center"].c], "clamped": [R(cc) for cc in fr.env["clamped"].c]})
+    return (Vec(nn, (3,), "f"), l)
+
+  gi = GInterp(summaries={mjmath.normalize_with_norm.key: summary}, abstract_matvec=True)
+  kt, gi = run_wrapper("k_sphere_box", {"dist_out": [1], "pos_out": [1], "normal_out": [1]}, interp=gi)
+  c, rs, p, sz = vec_arg(kt, "sphere_pos"), R(kt.args["sphere_radius"]), vec_arg(kt, "box_pos"), vec_arg(kt, "box_size")
+  Rm = [R(t) for t in kt.args["box_rot"].c]
+  dist, pos, n = R(kt.post("dist_out", 0)), out_vec(kt, "pos_out", 0, 3), out_vec(kt, "normal_out", 0, 3)
+  rp = lib.make_replay(ctx, kt, LOC + "k_sphere_box", "sphere_box", "goal", goal="checks.geom_c20:goal_sphere_box")
+  if len(calls) != 1 or len(gi.matvecs) != 4:
+    ctx.error(f"sphere_box structure changed ({len(calls)} normalize calls, {len(gi.matvecs)} matrix-vector products): harness does not apply")
+    return
+  C = calls[0]
+  x, q, l, nd = C["center"], C["clamped"], C["l"], C["n"]
+  (ex_center, _), (ex_nin, nm_nin), (ex_nout, nm_nout), (ex_pos, nm_pos) = gi.matvecs
+  pre = [t > 0 for t in sz]
+  ortho = [dot([Rm[3 * k + i] for k in range(3)], [Rm[3 * k + j] for k in range(3)]) == (1 if i == j else 0) for i in range(3) for j in range(i, 3)]
+  rots = [(1, 0, 0, 0, 1, 0, 0, 0, 1), ("3/5", "-4/5", 0, "4/5", "3/5", 0, 0, 0, 1), (0, 0, 1, 1, 0, 0, 0, 1, 0)]
+
+  def pin(cv, rot=rots[0], szv=(1, 2, "1/2"), rsv="1/4", pv=(0, 0, 0)):
+    return z3.And(pin_vec(c, cv), pin_vec(Rm, rot), pin_vec(sz, szv), pin_vec(p, pv), rs == Q(rsv))
+
+  pins = [pin(cv) for cv in [(3, 0, 0), (-3, 0, 0), (0, 5, "1/4"), (0, -5, "1/4"), (0, 1, 2), (0, 1, -2), (4, 6, "1/2"), (-4, 2, -2), (4, -5, 1), ("1/2", 0, 0), ("-3/4", 1, 0), (0, "7/4", "1/8"), (0, "-7/4", 0), (0, 0, "3/8"), ("1/4", 1, "-3/8")]]
+  pins += [pin(cv, rot=rots[1], pv=(1, -1, 2)) for cv in [(5, 2, 2), (1, 4, 2), (-4, -1, 3), (1, "-1/2", 2), ("8/5", "-1/5", 2), (1, -1, "9/4"), (1, -1, -1)]]
+  pins += [pin(cv, rot=rots[2]) for cv in [(3, 1, 1), (0, 0, 4), ("1/4", "1/2", "1/4"), (0, "-3/4", 0)]]
+  names = {"sphere_radius": rs, "norm_clamped_minus_center": l}
+  base = kt.bg + pre
+  # the vector normalised by the code is (clamped - center), center = R^T (c - p), clamped = clip(center)
+  P0 = Proof(ctx, base, names, rp, prefix="setup/", pins=pins)
+  ctx.reach(P0.full, "twin:reachable", pins[0])
+  P0.goal("center-is-box-coordinates", veq(ex_center, matTvec(Rm, sub(c, p))), using=[], desc="sphere_box: the sphere centre is not transformed to box coordinates with R^T (c - p)")
+  P0.goal("clamped-is-projection", z3.And(*[z3.And(q[i] >= -sz[i], q[i] <= sz[i], z3.Or(q[i] == x[i], z3.And(q[i] == sz[i], x[i] >= sz[i]), z3.And(q[i] == -sz[i], x[i] <= -sz[i]))) for i in range(3)]), using=pre, desc="sphere_box: 'clamped' is not the nearest point of the box to the sphere centre (per-coordinate projection onto [-size, size])")
+  P0.goal("normalised-vector", veq(C["x"], sub(q, x)), using=[], desc="sphere_box: the normalised vector is not (nearest box point - sphere centre)")
+  P0.goal("world-normal-rotation", veq(ex_nout, matvec(Rm, nd)), using=[], desc="sphere_box: the world normal is not R * (local direction)")
+  MINV = Q(MINVAL)
+  # ---------------------------------------------------------------- outside
+  P = Proof(ctx, base + [l > MINV], names, rp, prefix="outside/", pins=pins)
+  ctx.reach(P.full, "twin:outside", pins[0])
+  outn = veq(n, nm_nout)
+  P.goal("output/normal", outn, desc="sphere_box (outside): world normal is not R * normalised (nearest point - centre)")
+  P.lemma("out-n", outn)
+  P.goal("dist/separation", dist == l - rs, desc="sphere_box (outside): dist is not |nearest box point - sphere centre| - radius")
+  P.goal("length", z3.And(l >= 0, l * l == dot(sub(q, x), sub(q, x))), desc="sphere_box (outside): the normalisation length is not |nearest box point - sphere centre|")
+  # local pos (argument of the last R @ pos): midway between the box point q and the sphere surface point x + dir * rs
+  P.goal("normal/local-direction", z3.And(veq(scl(nd, l), sub(q, x)), dot(nd, nd) == 1), desc="sphere_box (outside): the local direction is not the unit vector from the sphere centre to the nearest box point")
+  P.goal("pos/world", veq(pos, add(p, nm_pos)), desc="sphere_box: world position is not box_pos + R * local position")
+  lp = local_pos_arg(gi)
+  P.goal("pos/local-midway", veq(scl(lp, 2), add(add(q, x), scl(nd, rs))), desc="sphere_box (outside): local pos is not midway between the nearest box point and the sphere surface point")
+  P.lemma("nd.nd", dot(nd, nd) == 1)
+  P.lemma("defs-nout", veq(nm_nout, matvec(Rm, nd)))
+  rotation_preserves_norm(P, Rm, nd, ortho)
+  P.goal("normal/unit", dot(n, n) == 1, guard=z3.And(*ortho), using=["out-n", "defs-nout", "nd.nd", "|Rv|=|v|"], desc="sphere_box (outside): world normal is not a unit vector (orthonormal box rotation)")
+  # ---------------------------------------------------------------- inside
+  P2 = Proof(ctx, base + [l == 0], names, rp, prefix="inside/", pins=pins)
+  ctx.reach(P2.full, "twin:inside", pins[9])
+  P2.lemma("arg", veq(C["x"], sub(q, x)), using=[])
+  P2.lemma("q=x", veq(q, x), using=["arg", C["facts"][1], l == 0])
+  fd = [(sz[j // 2] - x[j // 2]) if j % 2 else (sz[j // 2] + x[j // 2]) for j in range(6)]  # distances to the faces -x,+x,-y,+y,-z,+z (>= 0 inside)
+  m = -(dist + rs)  # claimed distance to the nearest face
+  P2.goal("dist/nearest-face", z3.And(*[m <= f for f in fd], z3.Or(*[m == f for f in fd])), desc="sphere_box (inside): -(dist + radius) is not the distance to the nearest face")
+  P2.goal("output/normal", veq(n, nm_nin), desc="sphere_box (inside): world normal is not R * (face direction)")
+  near = nearest_arg(gi)
+  alts = []
+  for j in range(6):
+    ej = [0, 0, 0]
+    ej[j // 2] = -1 if j % 2 else 1
+    alts.append(z3.And(m == fd[j], veq(near, ej)))
+  P2.goal("normal/local-face-direction", z3.Or(*alts), desc="sphere_box (inside): the local normal is not the inward direction of a nearest face (+axis for the -face, -axis for the +face)")
+  P2.goal("normal/world-rotation", veq(ex_nin, matvec(Rm, near)), using=[], desc="sphere_box (inside): world normal is not R * (face direction)")
+  P2.lemma("out-n", veq(n, nm_nin))
+  P2.lemma("defs-nin", veq(nm_nin, matvec(Rm, near)))
+  P2.lemma("face-direction", z3.Or(*alts))
+  P2.lemma("near.near", dot(near, near) == 1, using=["face-direction"])
+  rotation_preserves_norm(P2, Rm, near, ortho)
+  P2.goal("normal/unit", dot(n, n) == 1, guard=z3.And(*ortho), using=["out-n", "defs-nin", "near.near", "|Rv|=|v|"], desc="sphere_box (inside): world normal is not a unit vector (orthonormal box rotation)")
+  P2.goal("pos/world", veq(pos, add(p, nm_pos)), desc="sphere_box: world position is not box_pos + R * local position")
+  P2.goal("pos/local-midway", veq(scl(lp, 2), add(scl(x, 2), scl(near, rs - m))), desc="sphere_box (inside): local pos is not midway between the sphere surface point and the nearest face point")
+
+
+def rotation_preserves_norm(P, Rm, v, ortho):
+  """lemma '|Rv|=|v|' (under the orthonormality facts): |R v|^2 = sum_ij v_i v_j (R^T R)_ij with (R^T R)_ij named"""
+  g = {}
+  gdefs = []
+  for i in range(3):
+    for j in range(3):
+      g[(i, j)] = z3.Real(f"gram_{i}{j}")
+      gdefs.append(g[(i, j)] == dot([Rm[3 * k + i] for k in range(3)], [Rm[3 * k + j] for k in range(3)]))
+  P.assume(*gdefs)  # definitions of fresh names
+  Rv = matvec(Rm, v)
+  P.lemma("|Rv|^2-expand", dot(Rv, Rv) == sum(v[i] * v[j] * g[(i, j)] for i in range(3) for j in range(3)), using=gdefs)
+  P.lemma("gram=I", z3.Implies(z3.And(*ortho), z3.And(*[g[(i, j)] == (1 if i == j else 0) for i in range(3) for j in range(3)])), using=gdefs)
+  P.lemma("|Rv|=|v|", z3.Implies(z3.And(*ortho), dot(Rv, Rv) == dot(v, v)), using=["|Rv|^2-expand", "gram=I"])
+
+
+def _mv_arg(gi, k):
+  """argument vector v of the k-th named product M @ v: recovered from the recorded call (GInterp.matvec_args)"""
+  return gi.matvec_args[k]
+
+
+def local_pos_arg(gi):
+  return _mv_arg(gi, 3)
+
+
+def nearest_arg(gi):
+  return _mv_arg(gi, 1)
+
+
+# ------------------------------------------------------------------------------------------------ plane_ellipsoid
+
+
+def ellipsoid_reference(n, pp, c, Rm, sz):
+  """closed-form reference: the point of the ellipsoid {c + Rm y : sum (y_i/sz_i)^2 <= 1} lowest along the plane normal n is
+  y* = -S^2 w / |S w| with w = Rm^T n, S = diag(sz); dist = n.(c + Rm y* - pp) = n.(c - pp) - |S w|; pos midway between that
+  point and its foot point on the plane.  -> (dist, pos)"""
+  w = Rm.T @ n
+  t = sz * w
+  L = float(np.linalg.norm(t))
+  y = -sz * t / L
+  P = c + Rm @ y
+  dist = float(n @ (P - pp))
+  return dist, P - 0.5 * dist * n
+
+
+def goal_plane_ellipsoid(spec, pre, post):
+  n, pp = _f32(_argv(spec, "plane_normal")), _f32(_argv(spec, "plane_pos"))
+  c, Rm, sz = _f32(_argv(spec, "ellipsoid_pos")), _f32(_argv(spec, "ellipsoid_rot")).reshape(3, 3), _f32(_argv(spec, "ellipsoid_size"))
+  wd, wpos = ellipsoid_reference(n, pp, c, Rm, sz)
+  dist, pos, nn = float(post["dist_out"][0]), post["pos_out"][0].astype(np.float64), post["normal_out"][0].astype(np.float64)
+  scale = 1 + np.abs(c - pp).max() + np.abs(sz).max()
+  msgs = []
+  if abs(dist - wd) > TOL * scale:
+    msgs.append(f"dist {dist} but the lowest ellipsoid point is {wd} above the plane")
+  if np.abs(pos - wpos).max() > TOL * scale:
+    msgs.append(f"pos {pos.tolist()} but the midway point is {wpos.tolist()}")
+  if np.abs(nn - n).max() > TOL:
+    msgs.append("normal is not the plane normal")
+  return (not msgs), "plane_ellipsoid: " + ("; ".join(msgs) or "ok")
+
+
+def unit_plane_ellipsoid(ctx):
+  from mujoco_warp._src import collision_primitive_core as cpc
+
+  ctx.encode(cpc.plane_ellipsoid)
+  ctx.bound(note="no loops; all inputs symbolic; matrix-vector products named (definitions); wp.normalize through its contract")
+  ctx.assume("plane normal is a unit vector, ellipsoid radii > 0, the ellipsoid rotation is orthonormal", "floats are reals", "reference: closed form stated in geom_c20.ellipsoid_reference")
+  lemma_normalize(ctx)
+  gi = GInterp(abstract_matvec=True)
+  kt, gi = run_wrapper("k_plane_ellipsoid", {"dist_out": [1], "pos_out": [1], "normal_out": [1]}, interp=gi)
+  n, pp, c, sz = vec_arg(kt, "plane_normal"), vec_arg(kt, "plane_pos"), vec_arg(kt, "ellipsoid_pos"), vec_arg(kt, "ellipsoid_size")
+  Rm = [R(t) for t in kt.args["ellipsoid_rot"].c]
+  dist, pos, nout = R(kt.post("dist_out", 0)), out_vec(kt, "pos_out", 0, 3), out_vec(kt, "normal_out", 0, 3)
+  rp = lib.make_replay(ctx, kt, LOC + "k_plane_ellipsoid", "plane_ellipsoid", "goal", goal="checks.geom_c20:goal_plane_ellipsoid")
+  if len(gi.matvecs) != 2 or len(gi.norms) != 1:
+    ctx.error(f"plane_ellipsoid structure changed ({len(gi.matvecs)} matrix-vector products, {len(gi.norms)} normalize calls): harness does not apply")
+    return
+  (ex_w, w), (ex_Ry, Ry) = gi.matvecs
+  y = gi.matvec_args[1]  # local support point (argument of R @ .)
+  tx, L, u = gi.norms[0]  # normalize(t): t = w * size
+  rowsI = [dot(Rm[3 * i : 3 * i + 3], Rm[3 * j : 3 * j + 3]) == (1 if i == j else 0) for i in range(3) for j in range(i, 3)]  # R R^T = I
+  pre = [dot(n, n) == 1] + [t > 0 for t in sz] + rowsI
+  rots = [(1, 0, 0, 0, 1, 0, 0, 0, 1), ("3/5", "-4/5", 0, "4/5", "3/5", 0, 0, 0, 1), (0, 0, 1, 1, 0, 0, 0, 1, 0)]
+  pins = [z3.And(pin_vec(n, nv), pin_vec(pp, (0, 0, 0)), pin_vec(c, (1, 2, 3)), pin_vec(Rm, rot), pin_vec(sz, sv)) for nv, rot, sv in [((0, 0, 1), rots[0], (1, 2, "1/2")), (("3/5", 0, "4/5"), rots[1], (1, 1, 2)), ((0, 1, 0), rots[2], (3, 1, 2)), (("2/7", "3/7", "6/7"), rots[1], (1, 2, 3))]]
+  P = Proof(ctx, kt.bg + pre, {"len_scaled_normal": L}, rp, pins=pins)
+  ctx.reach(P.full, "twin:reachable", pins[0])
+  P.goal("normal", veq(nout, n), desc="plane_ellipsoid: returned normal is not the plane normal")
+  P.goal("local-normal", veq(ex_w, matTvec(Rm, n)), using=[], desc="plane_ellipsoid: the plane normal is not brought to ellipsoid coordinates with R^T n")
+  P.goal("scaled-normal", veq(tx, [w[i] * sz[i] for i in range(3)]), using=[], desc="plane_ellipsoid: the normalised vector is not size * (R^T n)")
+  P.lemma("t", veq(tx, [w[i] * sz[i] for i in range(3)]), using=[])
+  # |w| = |n| = 1 (R R^T = I): w != 0, hence L > 0
+  wdefs = [w[i] == ex_w[i] for i in range(3)]
+  RT = [Rm[3 * k + r] for r in range(3) for k in range(3)]  # transposed matrix (row major)
+  colsI_of_RT = rowsI  # columns of R^T are the rows of R
+  rotation_preserves_norm(P, RT, n, colsI_of_RT)
+  P.lemma("w-is-RTn", veq(w, matvec(RT, n)), using=wdefs + [])
+  P.lemma("w.w=1", dot(w, w) == 1, using=["w-is-RTn", "|Rv|=|v|", pre[0]] + rowsI)
+  P.lemma("L^2", L * L == sum(w[i] * w[i] * sz[i] * sz[i] for i in range(3)), using=["t", L * L == dot(tx, tx)])
+  P.lemma("L>0", L > 0, using=["L^2", "w.w=1", L >= 0] + pre[1:4])
+  P.lemma("u*L=t", veq(scl(u, L), [w[i] * sz[i] for i in range(3)]), using=["t", "L>0", z3.Implies(L > 0, z3.And(veq(scl(u, L), tx), dot(u, u) == 1))])
+  P.lemma("u.u=1", dot(u, u) == 1, using=["L>0", z3.Implies(L > 0, z3.And(veq(scl(u, L), tx), dot(u, u) == 1))])
+  P.goal("support-point/local", veq(y, [-u[i] * sz[i] for i in range(3)]), using=[], desc="plane_ellipsoid: the local support point is not -size * normalised(size * R^T n)")
+  P.lemma("y", veq(y, [-u[i] * sz[i] for i in range(3)]), using=[])
+  # on the surface: sum (y_i / size_i)^2 = 1, written without division as y_i = -u_i size_i with |u| = 1
+  P.goal("support-point/on-surface", z3.And(veq(y, [-u[i] * sz[i] for i in range(3)]), dot(u, u) == 1), using=["y", "u.u=1"], desc="plane_ellipsoid: the support point is not on the ellipsoid surface")
+  # lowest point: the outward surface normal there (gradient y_i / size_i^2) is anti-parallel to the plane normal:  L * y_i = -size_i^2 * w_i
+  P.goal("support-point/lowest", z3.And(L > 0, veq(scl(y, L), [-sz[i] * sz[i] * w[i] for i in range(3)])), using=["y", "u*L=t", "L>0"], desc="plane_ellipsoid: the surface normal at the support point is not opposite to the plane normal (not the lowest point)")
+  Pw = add(c, Ry)
+  P.goal("support-point/world", veq(ex_Ry, matvec(Rm, y)), using=[], desc="plane_ellipsoid: the world support point is not centre + R * local point")
+  P.goal("dist/signed-distance", dist == dot(n, sub(Pw, pp)), desc="plane_ellipsoid: dist is not the signed distance of the support point to the plane")
+  P.goal("pos/midway", veq(scl(pos, 2), sub(scl(Pw, 2), scl(n, dist))), desc="plane_ellipsoid: pos is not midway between the support point and its foot point on the plane")
+
+
+# ------------------------------------------------------------------------------------------------ plane_cylinder
+
+import math as _math
+
+S3 = Q(str(__import__("fractions").Fraction(repr(_math.sqrt(3.0)))))  # the float constant wp.sqrt(3.0) of the code
+
+
+def plane_cylinder_report(n, pp, c, a, Rc, h, dists, poss, what, degenerate_ok=True):
+  """statements for plane-cylinder contacts (dist_i, pos_i): the claimed surface point Q_i = pos_i + n dist_i / 2 lies on a rim
+  of the cylinder (axial coordinate +/- h, radial distance Rc), dist_i is its signed distance to the plane, and the smallest
+  dist is the closed-form lowest point  n.(c - pp) - h |n.a| - Rc sqrt(1 - (n.a)^2)"""
+  msgs = []
+  scale = 1 + np.abs(c - pp).max() + Rc + h
+  for i, (d, ps) in enumerate(zip(dists, poss)):
+    Qi = ps + n * d / 2
+    if abs(d - float(n @ (Qi - pp))) > TOL * scale:
+      msgs.append(f"{what}: dist[{i}] {d} is not the signed distance of the claimed surface point")
+    ax = float((Qi - c) @ a)
+    rad = float(np.linalg.norm(Qi - c - a * ax))
+    if abs(abs(ax) - h) > TOL * scale or abs(rad - Rc) > TOL * scale:
+      msgs.append(f"{what}: contact {i} point {Qi.tolist()} is not on a rim of the cylinder (axial {ax} vs +/-{h}, radial {rad} vs {Rc})")
+  if len(dists):
+    na = float(n @ a)
+    low = float(n @ (c - pp)) - h * abs(na) - Rc * _math.sqrt(max(0.0, 1 - na * na))
+    if abs(min(dists) - low) > TOL * scale:
+      msgs.append(f"{what}: deepest contact {min(dists)} but the lowest cylinder point is {low} from the plane")
+  return msgs
+
+
+def goal_plane_cylinder(spec, pre, post):
+  n, pp = _f32(_argv(spec, "plane_normal")), _f32(_argv(spec, "plane_pos"))
+  c, a, Rc, h = _f32(_argv(spec, "cylinder_center")), _f32(_argv(spec, "cylinder_axis")), float(_f32(_argv(spec, "cylinder_radius"))), float(_f32(_argv(spec, "cylinder_half_height")))
+  msgs = plane_cylinder_report(n, pp, c, a, Rc, h, [float(x) for x in post["dist_out"][:4]], [post["pos_out"][i].astype(np.float64) for i in range(4)], "plane_cylinder")
+  if np.abs(post["normal_out"][0].astype(np.float64) - n).max() > TOL:
+    msgs.append("normal is not the plane normal")
+  return (not msgs), "; ".join(msgs[:3]) or "plane_cylinder ok"
+
+
+class _CylInterp(GInterp):
+  """remembers plane_cylinder's locals at the wp.normalize call (vec, scaled axis, ... are final there)"""
+
+  def builtin(self, fr, key, args, e):
+    if key == "normalize":
+      self.snap = dict(fr.env)
+    return super().builtin(fr, key, args, e)
+
+
+def unit_plane_cylinder(regime):
+  def run(ctx):
+    _unit_plane_cylinder(ctx, regime)
+
+  return run
+
+
+def _unit_plane_cylinder(ctx, regime):
+  from mujoco_warp._src import collision_primitive_core as cpc
+
+  ctx.encode(cpc.plane_cylinder)
+  ctx.bound(regime=regime, note="no loops; all inputs symbolic; wp.dot results named (definitions), wp.normalize through its contract; regimes: projected normal long (|n x a|^2 >= 1e-12) with the axis pointing away from / towards the plane, and degenerate (axis parallel to the plane normal)")
+  ctx.assume("plane normal and cylinder axis are unit vectors, radius > 0, half height > 0", "floats are reals; wp.sqrt(3.0) is the float constant the code uses (contacts 3, 4 are on the rim up to |sqrt3^2 - 3| < 1e-15)", "reference: statements of geom_c20.plane_cylinder_report")
+  gi = _CylInterp(abstract_dot=True)
+  kt, gi = run_wrapper("k_plane_cylinder", {"dist_out": [4], "pos_out": [4], "normal_out": [1]}, interp=gi, divmode="poly")
+  n, pp, c, a = vec_arg(kt, "plane_normal"), vec_arg(kt, "plane_pos"), vec_arg(kt, "cylinder_center"), vec_arg(kt, "cylinder_axis")
+  Rc, h = R(kt.args["cylinder_radius"]), R(kt.args["cylinder_half_height"])
+  dist = [R(kt.post("dist_out", i)) for i in range(4)]
+  pos = [out_vec(kt, "pos_out", i, 3) for i in range(4)]
+  rp = lib.make_replay(ctx, kt, LOC + "k_plane_cylinder", "plane_cylinder", "goal", goal="checks.geom_c20:goal_plane_cylinder")
+  if len(gi.dots) != 4 or len(gi.norms) != 1 or not hasattr(gi, "snap"):
+    ctx.error(f"plane_cylinder structure changed ({len(gi.dots)} dot products, {len(gi.norms)} normalize calls): harness does not apply")
+    return
+  vc = [R(t) for t in gi.snap["vec"].c]  # the code's radial vector
+  d_na, d_dist0, d_len2, d_prjvec = [d[2] for d in gi.dots]
+  allv = free_vars(z3.And(*[core.zbool(b) for b in kt.bg]))
+  sq = [z3.Real(nm) for nm in sorted(allv) if nm.startswith("sqrt!")]
+  dv = [z3.Real(nm) for nm in sorted(allv) if nm.startswith("div!")]
+  xn, Lx, u = gi.norms[0]
+  pre = [dot(n, n) == 1, dot(a, a) == 1, Rc > 0, h > 0]
+  NA, D0, LEN = z3.Reals("ref_n_dot_a ref_dist0 ref_len")
+  defs = [NA == dot(n, a), D0 == dot(sub(c, pp), n), LEN >= 0, LEN * LEN == 1 - NA * NA]
+  names = {"n_dot_axis": NA, "len_projected": LEN, "radius": Rc, "half_height": h, "n0": n[0], "n1": n[1], "n2": n[2], "axis0": a[0], "axis1": a[1], "axis2": a[2]}
+
+  def pin(nv, av, cv=(0, 0, 1), Rv="1/2", hv="1"):
+    return z3.And(pin_vec(n, nv), pin_vec(a, av), pin_vec(c, cv), pin_vec(pp, (0, 0, 0)), Rc == Q(Rv), h == Q(hv))
+
+  N2 = ("2/7", "3/7", "6/7")
+  pins = [pin((0, 0, 1), (1, 0, 0)), pin((0, 0, 1), ("3/5", 0, "4/5")), pin((0, 0, 1), ("3/5", 0, "-4/5")), pin(N2, ("3/7", "-6/7", "2/7")), pin(("3/5", 0, "4/5"), (0, 1, 0)), pin(("3/5", 0, "4/5"), (0, 0, 1)), pin(("3/5", 0, "4/5"), (0, 0, -1)),
+          pin((0, 0, 1), (0, 0, 1)), pin((0, 0, 1), (0, 0, -1)), pin(N2, N2), pin(("3/5", 0, "4/5"), ("3/5", 0, "4/5")), pin(("3/5", "4/5", 0), ("-3/5", "-4/5", 0))]
+  base = kt.bg + pre + defs
+  nondeg = LEN * LEN >= Q("1/1000000000000")
+  cases = [("axis-away", z3.And(nondeg, NA <= 0), 1), ("axis-towards", z3.And(nondeg, NA > 0), -1)] if regime == "nondegenerate" else [("degenerate/axis-away", z3.And(z3.Not(nondeg), NA <= 0), 1), ("degenerate/axis-towards", z3.And(z3.Not(nondeg), NA > 0), -1)]
+  for cname, cond, sg in cases:
+    P = Proof(ctx, base + [cond], names, rp, prefix=f"{cname}/", pins=pins)
+    tw = next((pn for pn in pins if str(kh.Session(defs + pre + [cond, pn], timeout_ms=3000).reach("t").status) == "sat"), None)
+    ctx.reach(P.full, "twin:regime-reachable", tw if tw is not None else True)
+    ap = scl(a, sg)  # axis pointing towards the plane side (n . ap <= 0)
+    PR = NA * sg  # n . ap  (<= 0)
+    P.goal("normal", veq(out_vec(kt, "normal_out", 0, 3), n), desc="plane_cylinder: returned normal is not the plane normal")
+    P.lemma("na", d_na == NA, using=[d_na == dot(gi.dots[0][0], gi.dots[0][1]), defs[0]])
+    P.lemma("dist0", d_dist0 == D0, using=[d_dist0 == dot(gi.dots[1][0], gi.dots[1][1]), defs[1]])
+    v0 = sub(scl(ap, PR), n)
+    AA, NN = P.name("aa", dot(a, a)), P.name("nn", dot(n, n))
+    P.lemma("aa=1", AA == 1, using=["def:aa", pre[1]])
+    P.lemma("nn=1", NN == 1, using=["def:nn", pre[0]])
+    P.lemma("len2-arg", z3.And(veq(gi.dots[2][0], v0), veq(gi.dots[2][1], v0)), using=["na", cond])
+    P.lemma("len2-dot", dot(gi.dots[2][0], gi.dots[2][1]) == dot(v0, v0), using=["len2-arg"])
+    P.lemma("|v0|^2", dot(v0, v0) == PR * PR * AA - 2 * PR * sg * NA + NN, using=["def:aa", "def:nn", defs[0]])
+    P.lemma("|v0|^2=len^2", dot(v0, v0) == LEN * LEN, using=["|v0|^2", "aa=1", "nn=1", defs[3]])
+    P.lemma("len2", d_len2 == LEN * LEN, using=["len2-dot", "|v0|^2=len^2", d_len2 == dot(gi.dots[2][0], gi.dots[2][1])])
+    facts_sqrt = [z3.Implies(d_len2 >= 0, z3.And(sv >= 0, sv * sv == d_len2)) for sv in sq]
+    for sv in sq:
+      P.lemma(f"{sv}=len", sv == LEN, using=["len2", defs[2], defs[3]] + facts_sqrt)
+    sqn = [f"{sv}=len" for sv in sq]
+    inputs = free_vars(z3.And(*[t == 0 for t in n + pp + c + a]))
+    scalar_facts = [f for f in (core.zbool(t) for t in kt.bg) if not (free_vars(f) & inputs)]
+    Q_ = [add(pos[i], scl(n, dist[i] / 2)) for i in range(4)]  # claimed surface points
+    cap = [add(c, scl(ap, h)), sub(c, scl(ap, h)), add(c, scl(ap, h)), add(c, scl(ap, h))]  # centre of the cap each contact belongs to
+    if regime == "nondegenerate":
+      if len(dv) != 1:
+        ctx.error("plane_cylinder: expected exactly one division")
+        return
+      inv = dv[0]
+      P.lemma("len>0", LEN > 0, using=[cond, defs[2]])
+      P.lemma("inv*len=R", inv * LEN == Rc, using=scalar_facts + sqn + ["len>0"])
+      P.lemma("vec", veq(vc, scl(v0, inv)), using=["len2", "na", cond])
+      P.lemma("vec*len", veq(scl(vc, LEN), scl(v0, Rc)), using=["vec", "inv*len=R"])
+      P.goal("radial-vector", veq(scl(vc, LEN), scl(v0, Rc)), using=["vec*len"], desc="plane_cylinder: the radial vector is not radius * normalised(axis (n.axis) - n)")
+      P.lemma("v0.ap-expand", dot(v0, ap) == PR * AA - sg * NA, using=["def:aa", defs[0]])
+      P.lemma("v0.ap=0", dot(v0, ap) == 0, using=["v0.ap-expand", "aa=1"])
+      P.lemma("v0.n-expand", dot(v0, n) == sg * PR * NA - NN, using=["def:nn", defs[0]])
+      P.lemma("v0.n", dot(v0, n) == -(LEN * LEN), using=["v0.n-expand", "nn=1", defs[3]])
+      VAP, VN, VV = P.name("vec_ap", dot(vc, ap)), P.name("vec_n", dot(vc, n)), P.name("vec_vec", dot(vc, vc))
+      P.lemma("vec.ap*len", VAP * LEN == Rc * dot(v0, ap), using=["vec*len", "def:vec_ap"])
+      P.lemma("vec.ap=0", VAP == 0, using=["vec.ap*len", "v0.ap=0", "len>0"])
+      P.lemma("vec.n*len", VN * LEN == Rc * dot(v0, n), using=["vec*len", "def:vec_n"])
+      P.lemma("vec.n", VN == -(Rc * LEN), using=["vec.n*len", "v0.n", "len>0"])
+      P.lemma("|vec|^2*len^2", VV * LEN * LEN == Rc * Rc * dot(v0, v0), using=["vec*len", "def:vec_vec"])
+      P.lemma("|vec|=R", VV == Rc * Rc, using=["|vec|^2*len^2", "|v0|^2=len^2", "len>0"])
+    else:
+      P.lemma("vec", veq(vc, [Rc, 0, 0]), using=["len2", cond])
+      VAP, VN, VV = P.name("vec_ap", dot(vc, ap)), P.name("vec_n", dot(vc, n)), P.name("vec_vec", dot(vc, vc))
+      P.lemma("|vec|=R", VV == Rc * Rc, using=["vec", "def:vec_vec"])
+      P.lemma("vec.ap", VAP == Rc * sg * a[0], using=["vec", "def:vec_ap"])
+    P.lemma("prjvec-arg", z3.And(veq(gi.dots[3][0], vc), veq(gi.dots[3][1], n)))
+    P.lemma("prjvec", d_prjvec == VN, using=["prjvec-arg", d_prjvec == dot(gi.dots[3][0], gi.dots[3][1]), "def:vec_n"])
+    # contacts 1, 2: rim points of the two caps in the radial direction vec
+    for i, sgn_cap in ((0, 1), (1, -1)):
+      P.goal(f"contact{i + 1}/point", veq(Q_[i], add(add(c, vc), scl(ap, sgn_cap * h))), desc=f"plane_cylinder: contact {i + 1} is not centre + radial vector {'+' if sgn_cap > 0 else '-'} half height * axis (pos = that point - n dist / 2)")
+      P.lemma(f"Q{i + 1}", veq(Q_[i], add(add(c, vc), scl(ap, sgn_cap * h))))
+      P.lemma(f"Q{i + 1}.n", dot(n, sub(Q_[i], pp)) == D0 + VN + sgn_cap * h * PR, using=[f"Q{i + 1}", "def:vec_n", defs[0], defs[1]])
+      P.lemma(f"dist{i + 1}-code", dist[i] == D0 + sgn_cap * h * PR + VN, using=["dist0", "na", "prjvec", cond])
+      P.goal(f"contact{i + 1}/dist", dist[i] == dot(n, sub(Q_[i], pp)), using=[f"Q{i + 1}.n", f"dist{i + 1}-code"], desc=f"plane_cylinder: dist[{i}] is not the signed distance of the claimed surface point to the plane")
+      rad = sub(Q_[i], cap[i])
+      P.lemma(f"rad{i + 1}", veq(rad, vc), using=[f"Q{i + 1}"])
+      P.lemma(f"rad{i + 1}-dots", z3.And(dot(rad, ap) == VAP, dot(rad, rad) == VV), using=[f"rad{i + 1}", "def:vec_ap", "def:vec_vec"])
+      P.goal(f"contact{i + 1}/on-rim", z3.And(dot(rad, ap) == 0, dot(rad, rad) == Rc * Rc), using=[f"rad{i + 1}-dots", "vec.ap=0" if regime == "nondegenerate" else "vec.ap", "|vec|=R"], desc=f"plane_cylinder: contact {i + 1} is not on the rim of its cap (radial vector not perpendicular to the axis or not of length radius)")
+    if regime == "nondegenerate":
+      P.goal("contact1/lowest-point", dist[0] == D0 + h * PR - Rc * LEN, using=["dist1-code", "vec.n"], desc="plane_cylinder: contact 1 is not the lowest point of the cylinder: n.(c - p) - h |n.a| - R sqrt(1 - (n.a)^2)")
+      # contacts 3, 4: on the lower rim, 120 degrees on either side of contact 1
+      v1 = scl(u, Rc * S3 / 2)
+      xa = cross(vc, scl(ap, h))
+      P.lemma("cross-arg", veq(xn, xa))
+      APAP = P.name("ap_ap", dot(ap, ap))
+      P.lemma("apap=1", APAP == 1, using=["def:ap_ap", pre[1]])
+      XX, CC = P.name("xn_xn", dot(xn, xn)), P.name("xa_xa", dot(xa, xa))
+      P.lemma("lagrange", CC == VV * h * h * APAP - h * h * VAP * VAP, using=["def:xa_xa", "def:vec_vec", "def:ap_ap", "def:vec_ap"])
+      P.lemma("|cross|^2", CC == Rc * Rc * h * h, using=["lagrange", "|vec|=R", "vec.ap=0", "apap=1"])
+      P.lemma("xn.xn", XX == CC, using=["cross-arg", "def:xn_xn", "def:xa_xa"])
+      P.lemma("Lx^2-def", Lx * Lx == XX, using=[Lx * Lx == dot(xn, xn), "def:xn_xn"])
+      P.lemma("Lx^2", Lx * Lx == Rc * Rc * h * h, using=["|cross|^2", "xn.xn", "Lx^2-def"])
+      P.lemma("Lx>0", Lx > 0, using=["Lx^2", Lx >= 0] + pre[2:])
+      ufacts = z3.Implies(Lx > 0, z3.And(veq(scl(u, Lx), xn), dot(u, u) == 1))
+      P.lemma("u*Lx=xn", veq(scl(u, Lx), xn), using=["Lx>0", ufacts])
+      P.lemma("u*Lx", veq(scl(u, Lx), xa), using=["u*Lx=xn", "cross-arg"])
+      UU, UV, UA, UN = P.name("u_u", dot(u, u)), P.name("u_vec", dot(u, vc)), P.name("u_ap", dot(u, ap)), P.name("u_n", dot(u, n))
+      P.lemma("u.u=1", UU == 1, using=["Lx>0", ufacts, "def:u_u"])
+      P.lemma("cross.vec", dot(xa, vc) == 0, using=[])
+      P.lemma("cross.ap", dot(xa, ap) == 0, using=[])
+      P.lemma("u.vec*Lx", UV * Lx == dot(xa, vc), using=["u*Lx", "def:u_vec"])
+      P.lemma("u.vec=0", UV == 0, using=["u.vec*Lx", "cross.vec", "Lx>0"])
+      P.lemma("u.ap*Lx", UA * Lx == dot(xa, ap), using=["u*Lx", "def:u_ap"])
+      P.lemma("u.ap=0", UA == 0, using=["u.ap*Lx", "cross.ap", "Lx>0"])
+      # (vec x ap).n * len = R ((ap PR - n) x ap).n = -R (n x ap).n = 0
+      xl = cross(scl(v0, Rc), scl(ap, h))
+      P.lemma("cross0.n", dot(xl, n) == 0, using=[])
+      P.lemma("cross*len", veq(scl(xa, LEN), xl), using=["vec*len"])
+      P.lemma("u.n*Lx*len", UN * Lx * LEN == dot(xl, n), using=["u*Lx", "cross*len", "def:u_n"])
+      P.lemma("u.n=0", UN == 0, using=["u.n*Lx*len", "cross0.n", "Lx>0", "len>0"])
+      for i, sgn1 in ((2, 1), (3, -1)):
+        pt = add(sub(add(c, scl(v1, sgn1)), scl(vc, Q("1/2"))), scl(ap, h))
+        P.goal(f"contact{i + 1}/point", veq(Q_[i], pt), desc=f"plane_cylinder: contact {i + 1} is not centre {'+' if sgn1 > 0 else '-'} side vector - radial vector / 2 + half height * axis")
+        P.lemma(f"Q{i + 1}", veq(Q_[i], pt))
+        P.lemma(f"Q{i + 1}.n", dot(n, sub(Q_[i], pp)) == D0 + sgn1 * Rc * S3 / 2 * UN - VN / 2 + h * PR, using=[f"Q{i + 1}", "def:u_n", "def:vec_n", defs[0], defs[1]])
+        P.lemma(f"dist{i + 1}-code", dist[i] == D0 + h * PR - VN / 2, using=["dist0", "na", "prjvec", cond])
+        P.goal(f"contact{i + 1}/dist", dist[i] == dot(n, sub(Q_[i], pp)), using=[f"Q{i + 1}.n", f"dist{i + 1}-code", "u.n=0"], desc=f"plane_cylinder: dist[{i}] is not the signed distance of the claimed surface point to the plane")
+        rad = sub(Q_[i], cap[i])
+        P.lemma(f"rad{i + 1}", veq(rad, sub(scl(v1, sgn1), scl(vc, Q("1/2")))), using=[f"Q{i + 1}"])
+        P.lemma(f"rad{i + 1}-dots", z3.And(dot(rad, rad) == Rc * Rc * S3 * S3 / 4 * UU - sgn1 * Rc * S3 / 2 * UV + VV / 4, dot(rad, ap) == sgn1 * Rc * S3 / 2 * UA - VAP / 2), using=[f"rad{i + 1}", "def:u_u", "def:u_vec", "def:vec_vec", "def:u_ap", "def:vec_ap"])
+        P.goal(f"contact{i + 1}/on-rim", z3.And(dot(rad, ap) == 0, 4 * dot(rad, rad) == Rc * Rc * (S3 * S3 + 1)), using=[f"rad{i + 1}-dots", "u.u=1", "u.vec=0", "u.ap=0", "vec.ap=0", "|vec|=R"], desc=f"plane_cylinder: contact {i + 1} is not on the lower rim (radial vector not perpendicular to the axis or not of length radius)")
+
+
 def unit_validate(ctx):
   bad = validate_geometry(ctx.seed, 60 if ctx.tier == "quick" else 300)
   for b in bad[:5]:
@@ -1391,6 +1910,10 @@ def units(include_frame=True):
     ("geometry/plane_capsule/fallback-z", unit_plane_capsule("fallback-z")),
     ("geometry/capsule_capsule", unit_capsule_capsule),
     ("geometry/plane_box", unit_plane_box),
+    ("geometry/sphere_box", unit_sphere_box),
+    ("geometry/plane_ellipsoid", unit_plane_ellipsoid),
+    ("geometry/plane_cylinder/nondegenerate", unit_plane_cylinder("nondegenerate")),
+    ("geometry/plane_cylinder/degenerate", unit_plane_cylinder("degenerate")),
     ("geometry/sphere_cylinder/side", unit_sphere_cylinder("side")),
     ("geometry/sphere_cylinder/cap", unit_sphere_cylinder("cap")),
     ("geometry/sphere_cylinder/rim", unit_sphere_cylinder("rim")),
